@@ -56,6 +56,16 @@ CHECKS['C03'] = dict(
    text='Generated-input search with a specification-predicate oracle. n <= 5 distinct keys, m <= n (and m = n + 1), signature multisets mixing listed signers, outsiders, exact duplicates, same-signer flag variants, non-permitted flags, bit flips and wrong lengths. The verdict must be true exactly when all m items are well-formed, permitted and valid under pairwise different listed keys, never true otherwise (an error only when a malformed or non-permitted item exists), and identical for every order of keys and of signatures (all n!*m! orders enumerated for n, m <= 3, 24 drawn otherwise). The same multisets go through make_multisig_lock + concatenated make_single_sig_witness and run_auth_scripts.',
    note='Quorum 0 is vacuously true (recorded as a class). Keys are distinct, so greedy matching is exact. A tenth of the positive verdicts is re-verified with the RFC 8032 reference.',
    design='3/C03')
+CHECKS['C17'] = dict(
+   technique='Hypothesis seeds / messages / edge tweak scalars; every identity recomputed with the pure-Python Ed25519 reference; complete enumeration of all single-bit corruptions of the five check inputs per case; builder end-to-end',
+   text='Generated-input search with an independent cryptographic reference. For each case (signer seed, message of 0-512 bytes, tweak material from eight classes incl. 1, L-1, L+1, 2^255-1 and unclamped bytes) the adapter made by the op must pass the adapter check; all 1024 single-bit corruptions of sa, R, T and X and all (or 200+ drawn) message bits must fail it; decryption with t must equal (R+T, sa+t mod L) computed by the reference and verify under strict RFC 8032 and under CHECK_SIG; t = s - sa; the adapter itself and a decryption with another scalar must not verify; t = 0 (mod L) is a clean error. Builder level: make_adapter_witness, make_adapter_locks_pub/_prv, make_adapter_decrypt, decrypt_adapter and the deprecated single-script locks, with wrong-scalar, undecrypted and foreign-key negatives. Two open known findings (OP_MAKE_ADAPTER_SIG_PRIVATE) are excluded by their specific signatures.',
+   note='"Another scalar" means clamp(t\') mod L != t mod L. Strict verification (s < L) is what "valid signature" means here. The property does not state how the nonce is derived, so a nonce that ignores the message is not detected.',
+   design='3/C17')
+CHECKS['C04'] = dict(
+   technique='complete enumeration of tree shapes <= 6 leaves and builder outputs 1..24 leaves + Hypothesis shapes to 8 leaves; recording-contract observation; reference Merkle verifier; data-level proof corruptions re-encoded as pure-push witnesses',
+   text='Generated-input search with a reference model. Every leaf body starts by invoking a recording contract, so the set of leaf bodies that started is observable. Complete: all 65 binary shapes with 2-6 leaves x every leaf x three pre-witnesses (honest proof: exactly that leaf starts, verdict = the leaf\'s own verdict, pack/unpack keeps root and all unlocking scripts) and eight corruption kinds per leaf judged by a reference verifier (a proof that does not hash to the root must give False with an empty recorder; one that happens to stay valid must run exactly the leaf the reference names); all four builders for 1..24 leaves (i-th unlocking script runs input leaf i only, incl. next to filler leaves). Random: shapes of 2-8 leaves with generated leaf bodies.',
+   note='Corruptions are applied to the proof data and re-encoded with well-formed pushes, so the recorder can be reached only through the lock (a witness may run anything as its own code; that is not what the property forbids). Leaf scripts stay below the item size limit.',
+   design='3/C04')
 NOT_YET = {}
 for i in range(1, 21):
     pid = 'C%02d' % i
